@@ -319,3 +319,55 @@ func VerifC13_Incarnations() {
 	}
 	vReach("end")
 }
+
+// ---- a partition notification that overtakes its collection's notification ----
+
+var (
+	c13HoldOn   bool
+	c13HoldGate chan struct{}
+)
+
+// hook before (*EtcdOp).fillCollectionField: the processing of the late collection's
+// watch event is held until the partition notification has been handled
+func c13HookBeforeFill(e *EtcdOp, info *pb.CollectionInfo) {
+	if c13HoldOn && info.ID == 20 {
+		<-c13HoldGate
+	}
+}
+
+// VerifC13_PartitionOvertakesCollection: after the task has started, a collection and a
+// non-default partition of it are created; the partition notification is handled before
+// the collection notification has been processed (the two watchers are independent
+// goroutines). The catalog has one or two databases. The partition must not be lost.
+func VerifC13_PartitionOvertakesCollection() {
+	etcd := &c13Etcd{data: map[string][]byte{}}
+	etcd.putDB(1, "default")
+	twoDBs := vBool("secondDatabaseExists")
+	if twoDBs {
+		etcd.putDB(2, "other")
+	}
+	etcd.putCollection(1, 10, "a", pb.CollectionState_CollectionCreated, 1000)
+	op := c13NewEtcdOp(etcd)
+	mgr := &c13Mgr{}
+	all := func(*model.DatabaseInfo, *pb.CollectionInfo) (bool, bool) { return false, true }
+	rd, _ := NewCollectionReader("task", mgr, op, nil, nil, all, c13ReaderCfg())
+	c13Write = nil
+	rd.StartRead(context.Background())
+	vQuiesce()
+	c13HoldOn, c13HoldGate = true, make(chan struct{})
+	etcd.putCollection(1, 20, "b", pb.CollectionState_CollectionCreated, 2000)
+	etcd.putPartition(20, 201, "p1", pb.PartitionState_PartitionCreated)
+	vQuiesce() // the partition notification is handled while the collection's is held
+	close(c13HoldGate)
+	vQuiesce()
+	c13HoldOn = false
+	vAssert(c13Count(mgr.started, 20) >= 1, "C13.collection-created-after-start-is-started")
+	n := 0
+	for _, p := range mgr.partitions {
+		if p == [2]int64{20, 201} {
+			n++
+		}
+	}
+	vAssert(n >= 1, "C13.partition-whose-notification-overtakes-its-collection-is-not-lost")
+	vReach("end")
+}
